@@ -566,6 +566,21 @@ impl Gen {
     // favour what creates a free-list segment: an inner block (not the one ending at the
     // cursor) that is large enough for a segment node + the minimum segment size
     let ai = self.ai();
+    // now and then: release the block just below the topmost one, then the topmost one, so that a free-list
+    // segment ends exactly at the cursor (a tail split off from it later is "on top" of the arena)
+    if live.len() >= 2 && self.rng.chance(7) {
+      let mut by_off: Vec<HandleInfo> = live.iter().filter(|h| h.bcap > 0).copied().collect();
+      by_off.sort_by_key(|h| h.boff);
+      if by_off.len() >= 2 {
+        let (top, below) = (by_off[by_off.len() - 1], by_off[by_off.len() - 2]);
+        if top.boff + top.bcap == ai.allocated && below.boff + below.bcap == top.boff {
+          let op = self.rng.pick(&["drop", "dealloc"]);
+          self.emit(format!("{op} {}", below.id));
+          self.emit(format!("{op} {}", top.id));
+          return true;
+        }
+      }
+    }
     let good: Vec<HandleInfo> = live
       .iter()
       .filter(|h| h.bcap >= ai.minseg as usize + 16 && h.boff + h.bcap != ai.allocated)
